@@ -46,7 +46,9 @@ PyObject* py_cooccurent(PyObject* self, PyObject* args) {
     PyArrayObject* Bc;
     int symmetric;
     if (!PyArg_ParseTuple(args,"OOOi", &array, &result, &Bc, &symmetric)) return NULL;
-    if (!PyArray_Check(array) || !PyArray_Check(result) || !PyArray_Check(Bc)) {
+    // the values of array index the result matrix: they must be what the caller sees (native byte order)
+    if (!PyArray_Check(array) || !PyArray_Check(result) || !PyArray_Check(Bc) ||
+        !PyArray_ISNOTSWAPPED(array)) {
         PyErr_SetString(PyExc_RuntimeError, TypeErrorMsg);
         return NULL;
     }
